@@ -60,6 +60,12 @@ class LetFiller(Visitor):
         return circuitbuilder.build(sexpr, inject_pulses=inject_pulses)
 
     def visit_BlockStatement(self, block):
+        if block.subcircuit:
+            return [
+                "subcircuit_block",
+                self.visit(block.iterations),
+                *[self.visit(stmt) for stmt in block.statements],
+            ]
         if block.parallel:
             block_type = "parallel_block"
         else:
